@@ -263,7 +263,8 @@ func (s *Store) compact(footer *Footer, partialCompactStart int,
 
 		newSS, newBase = s.mergeSegStacks(footer, partialCompactStart, ssHigher)
 	} else {
-		newSS = footer.ss      // Safe as footer ref count is held positive.
+		// Safe as footer ref count is held positive.
+		newSS = footer.segStackWithChildren()
 		if len(newSS.a) <= 1 { // No incoming data & 1 or fewer footer segments.
 			return ErrNothingToCompact // no need to perform compaction.
 		}
